@@ -118,7 +118,7 @@ func zzMkStream(tag string, infos []*pcapmetadata.PcapInfo, v6 bool) *streams.St
 	idx := []uint64{10, 1<<32 + 5, 1<<33 - 2}[zz.Choice(tag+".idx", zz.Param("idxbases", 2))]
 	for i := 0; i < np; i++ {
 		if i > 0 {
-			t = t.Add([]time.Duration{time.Microsecond, 0, 30 * time.Millisecond, 2 * time.Second}[zz.Choice(tag+".gap", zz.Param("gaps", 2))])
+			t = t.Add([]time.Duration{time.Microsecond, 0, 30 * time.Millisecond, 2 * time.Second, 40 * time.Minute}[zz.Param("gapfrom", 0)+zz.Choice(tag+".gap", zz.Param("gaps", 2))])
 		}
 		ci := gopacket.CaptureInfo{Timestamp: t}
 		pcapmetadata.AddPcapMetadata(&ci, infos[zz.Choice(tag+".file", len(infos))], idx)
@@ -129,7 +129,17 @@ func zzMkStream(tag string, infos []*pcapmetadata.PcapInfo, v6 bool) *streams.St
 			dir = reassembly.TCPDirServerToClient
 		}
 		s.PacketDirections = append(s.PacketDirections, dir)
-		if l := zz.Choice(tag+".payload", 1+zz.Param("payload", 2)); l > 0 {
+		if zz.Param("bigpayload", 0) == 1 && i == 0 {
+			// one chunk around the 16-bit size limit of a packet record: 65534..65537
+			// bytes, the first and the last two symbolic, the rest a fixed pattern
+			b := make([]byte, 65534+zz.Choice(tag+".big", 4))
+			for k := range b {
+				b[k] = byte(k * 7)
+			}
+			e := zz.Bytes(tag+".bigedge", 3)
+			b[0], b[len(b)-2], b[len(b)-1] = e[0], e[1], e[2]
+			s.Data = append(s.Data, streams.StreamData{Bytes: b, PacketIndex: uint64(i)})
+		} else if l := zz.Choice(tag+".payload", 1+zz.Param("payload", 2)); l > 0 {
 			s.Data = append(s.Data, streams.StreamData{Bytes: zz.Bytes(tag+".data", l), PacketIndex: uint64(i)})
 		}
 	}
